@@ -194,6 +194,15 @@ def predicate(c):
         if q > 0.5:
             dt = dt * 0.5 / q * 0.95
             labels.append("dt-reduced-to-contraction-regime")
+        # the stopping test compares successive iterates with tol; the drift is a difference of O(max|c|/h) terms, so
+        # the iterates carry rounding noise of about eps * |dt| * max|c| / (h r_min B0).  A tolerance below that floor
+        # cannot be met by any implementation (met in the thorough tier: phi = 1 + 1e-6 s^2 made dt ~ 1e5); termination
+        # is only claimed when tol is 100x above it
+        gq_, gr_ = sref.grad_bound(Cphi)
+        floor = EPS * max(gq_, gr_) / (rpts[0] * c["B0"])
+        if abs(dt) * floor * 100 > c["tol"]:
+            dt = math.copysign(c["tol"] / (100 * floor), dt)
+            labels.append("dt-capped-by-rounding-floor")
         # count fixed-point sweeps by wrapping the evaluation kernels
         nodes = f0.size
         limit = (2 * 200 + 1) * nodes
